@@ -38,6 +38,10 @@ pub struct GRound {
     pub delivery: Delivery,
     /// cache operations between the barrier of the previous round and the edits of this one
     pub ops: Vec<HOp>,
+    /// loads made after the notifications were sent *and consumed by the reloader* but before the barrier: what they
+    /// cache is fresh already and must not be rewritten by the pass on account of those earlier notifications
+    #[serde(default)]
+    pub late_ops: Vec<HOp>,
 }
 #[derive(Clone, Debug, Serialize, Deserialize)]
 pub struct GWork {
@@ -160,7 +164,17 @@ pub fn generate(g: &mut SplitMix, o: &GenOpts) -> GWork {
                     }
                 })
                 .collect();
-            GRound { edits, delivery, ops }
+            let late_ops = if g.chance(1, 4) {
+                (0..1 + g.below(2))
+                    .map(|_| {
+                        let ty = gen_ty(g);
+                        HOp::Load(ty, gen_id(g, &u, ty), false)
+                    })
+                    .collect()
+            } else {
+                vec![]
+            };
+            GRound { edits, delivery, ops, late_ops }
         })
         .collect();
     GWork { report_gained: false, tree, static_mode: !o.single_entry_rounds && g.chance(1, 4), initial, rounds, with_helpers: o.helpers }
@@ -186,6 +200,11 @@ pub fn shrink(w: &GWork) -> Vec<GWork> {
         for o in 0..w.rounds[r].ops.len() {
             let mut x = w.clone();
             x.rounds[r].ops.remove(o);
+            out.push(x);
+        }
+        for o in 0..w.rounds[r].late_ops.len() {
+            let mut x = w.clone();
+            x.rounds[r].late_ops.remove(o);
             out.push(x);
         }
         if w.rounds[r].delivery != Delivery::Single {
@@ -420,6 +439,16 @@ pub fn scenario(w: GWork) {
             Delivery::BarrierEach => {}
         }
         let each = round.delivery == Delivery::BarrierEach && !w.static_mode;
+        // which notifications the reloader accepts is decided when it handles them: now (everything loaded so far is registered)
+        let accepted_now = model.accepted(&notes.iter().cloned().collect());
+        if !each && !w.static_mode && !round.late_ops.is_empty() {
+            detsim::quiesce();
+            for op in &round.late_ops {
+                do_op(cache, &mut model, op, &format!("round {ri} (after the notifications)"));
+            }
+            detsim::count("reach.load_between_notification_and_pass");
+        }
+        let before = if round.late_ops.is_empty() || each || w.static_mode { before } else { snapshot(cache, &u) };
         let groups: Vec<Vec<Dep>> = if each { notes.iter().map(|n| vec![n.clone()]).collect() } else { vec![notes.clone()] };
         let mut before = before;
         for group in groups {
@@ -429,6 +458,7 @@ pub fn scenario(w: GWork) {
             barrier(cache);
             let after = snapshot(cache, &u);
             let notified: BTreeSet<Dep> = group.iter().cloned().collect();
+            let accepted: BTreeSet<Dep> = if each { model.accepted(&notified) } else { accepted_now.clone() };
             // C06: a value read after a watcher reported reload #n is at least as new as reload #n
             if let Some(k) = &poll_key {
                 if let Some((v1, id1)) = after.get(k) {
@@ -438,7 +468,7 @@ pub fn scenario(w: GWork) {
                     }
                 }
             }
-            if !oracle(&mut model, &before, &after, &notified, w.static_mode, ri, w.report_gained) {
+            if !oracle(&mut model, &before, &after, &notified, &accepted, w.static_mode, ri, w.report_gained) {
                 return;
             }
             before = after;
@@ -462,7 +492,7 @@ pub fn scenario(w: GWork) {
     }
 }
 /// The fixpoint oracle (DESIGN §6.4). Returns false when the round is ambiguous and the scenario must stop.
-fn oracle(model: &mut Model, before: &Snap, after: &Snap, notified: &BTreeSet<Dep>, static_mode: bool, ri: usize, report_gained: bool) -> bool {
+fn oracle(model: &mut Model, before: &Snap, after: &Snap, notified: &BTreeSet<Dep>, accepted: &BTreeSet<Dep>, static_mode: bool, ri: usize, report_gained: bool) -> bool {
     if before.keys().ne(after.keys()) {
         // a reload cached an asset that was absent before the pass: the model cannot attribute its value to a pass order
         let gone: Vec<&Key> = before.keys().filter(|k| !after.contains_key(*k)).collect();
@@ -470,7 +500,7 @@ fn oracle(model: &mut Model, before: &Snap, after: &Snap, notified: &BTreeSet<De
         detsim::count("reach.ambiguous_round_new_entry_cached_by_a_reload");
         return false;
     }
-    let accepted = model.accepted(notified);
+    let accepted = accepted.clone();
     let aff = model.affected(&accepted);
     // the model now holds the real final cache
     for (k, (v, id)) in after {
